@@ -26,7 +26,7 @@ def rand_vec(rng):
     if r < 0.25:
         v = rng.choice([(1, 0, 0), (0, 1, 0), (0, 0, 1), (0, 0, 2), (1, 1, 0), (0, 0.5, 0.5), (-1, 0, 0)])
         return tuple(float(x) for x in v)
-    s = rng.choice([1.0, 0.35, 6.0])
+    s = rng.choice([1.0, 0.35, 6.0, 1.0, 0.35, 6.0, 3e-7, 1e-9, 1e5])      # only the direction matters: any non-zero length is legal
     while True:
         v = np.array([rng.uniform(-1, 1) for _ in range(3)])
         if np.linalg.norm(v) > 0.2:
@@ -59,7 +59,12 @@ def gen_history(rng, maxlen):
 
 def apply_impl(ub, op):
     if op[0] == "set":
-        setattr(ub, op[1], op[2])
+        # the caller may hand over a tuple, a list or an array, and may reuse its own buffer afterwards
+        kind = int(abs(op[2][0]) * 1000) % 3
+        buf = tuple(op[2]) if kind == 0 else list(op[2]) if kind == 1 else np.array(op[2], float)
+        setattr(ub, op[1], buf)
+        if kind != 0:
+            buf[0], buf[1], buf[2] = 9.0, -7.0, 0.5
     elif op[0] == "ub":
         if op[1] is None:
             ub.UB = None; ub.U = None
